@@ -31,12 +31,15 @@ def main():
         if op[0] == 'w':
             Path(op[1]).write_text(spec['contents'][op[2]])
             rec['out'] = '-'
+        elif op[0] == 'wv':
+            rec['out'] = '-'      # bookkeeping for the model only: names the content the next request (file + overriding parameters) asks for
         elif op[0] == 'c':
             os.chdir(op[1])
             cwd0 = op[1]
             rec['out'] = '-'
         else:
-            _, path, caching, client_id = op
+            path, caching, client_id = op[1], op[2], op[3]
+            overrides = spec.get('overrides', {}).get(op[4]) if op[0] == 'qp' else None
             key = (client_id, caching)
             if client_id == 'fresh':
                 cl = GeophiresXClient(enable_caching=bool(caching))
@@ -45,7 +48,7 @@ def main():
             sink = io.StringIO()
             try:
                 with contextlib.redirect_stdout(sink), contextlib.redirect_stderr(sink):
-                    res = cl.get_geophires_result(GeophiresInputParameters(from_file_path=Path(path)))
+                    res = cl.get_geophires_result(GeophiresInputParameters(from_file_path=Path(path), params=overrides) if overrides else GeophiresInputParameters(from_file_path=Path(path)))
                 # the result object itself (what the client hands back), not the file it points to: one output path serves every
                 # request for one input path, so a cached result's file may since have been overwritten by a later run
                 body = {k: v for k, v in res.result.items() if k not in ('metadata', 'Simulation Metadata')}
